@@ -1,6 +1,9 @@
 import ApolloModel.Model.Proto
 import ApolloModel.Model.Numbers
 import ApolloModel.Model.Types
+import ApolloModel.Model.NumbersParse
+import ApolloModel.Model.ParserEntry
+import Driver.D08
 open Apollo Apollo.Proto Apollo.Num
 namespace Driver
 
@@ -8,6 +11,29 @@ def parseInt? (s : String) : Option Int :=
   match s.toList with
   | '-' :: rest => (String.ofList rest).toNat?.map fun n => -(n : Int)
   | _ => s.toNat?.map fun n => (n : Int)
+
+/-- `Display for Type` on the parser-side type (same function as `Ast.tyText`, Proofs/TypeText.lean) -/
+def tyTextD : Ast.Ty → List Char
+  | .named n => n
+  | .nonNullNamed n => n ++ ['!']
+  | .list t => '[' :: tyTextD t ++ [']']
+  | .nonNullList t => '[' :: tyTextD t ++ [']', '!']
+
+def toAstTy : Ty → Ast.Ty
+  | .named n => .named n.toList
+  | .nonNullNamed n => .nonNullNamed n.toList
+  | .list t => .list (toAstTy t)
+  | .nonNullList t => .nonNullList (toAstTy t)
+
+def encAstTy : Ast.Ty → String
+  | .named n => "n" ++ String.ofList n ++ ";"
+  | .nonNullNamed n => "N" ++ String.ofList n ++ ";"
+  | .list t => "l" ++ encAstTy t
+  | .nonNullList t => "L" ++ encAstTy t
+
+def astTySize : Ast.Ty → Nat
+  | .named _ | .nonNullNamed _ => 1
+  | .list t | .nonNullList t => astTySize t + 1
 
 def c10 (stream : String) (fs : List String) : String :=
   match stream, fs with
@@ -23,6 +49,22 @@ def c10 (stream : String) (fs : List String) : String :=
     match Ty.decode t with
     | some t => t.print
     | none => "bad-case"
+  | "typert", [t] =>
+    match Ty.decode t with
+    | some t =>
+      let aty := toAstTy t
+      let text := tyTextD aty
+      let errs := (Parse.parse .type none 500 text).errors
+      let back := (sigToks (Lex.lex none text)).bind fun ts => Ast.pTy (astTySize aty) ts
+      String.ofList text ++ " " ++ (if errs.isEmpty then "ok" else "err") ++ " " ++
+        (match errs.isEmpty, back with
+         | true, some (t', []) => encAstTy t'
+         | _, _ => "-")
+    | none => "bad-case"
+  | "i32parse", [s] =>
+    match tryToI32 (decodeField s) with
+    | some v => s!"ok:{v}"
+    | none => "err"
   | _, _ => "bad-case"
 
 end Driver
